@@ -1498,3 +1498,40 @@ fn get_glv_token_value_via_cpi<'info>(
 
 #[cfg(not(feature = "no-entrypoint"))]
 gmsol_utils::security_txt!("GMX-Solana Liquidity Provider Program");
+
+/// Verification hooks (compiled only with `--cfg gmsol_verif`): thin wrappers of private functions.
+#[cfg(gmsol_verif)]
+pub mod verif {
+    use anchor_lang::prelude::Result;
+
+    /// Number of APY buckets.
+    pub const APY_BUCKETS: usize = super::APY_BUCKETS;
+    /// Seconds per week used by the APY schedule.
+    pub const SECONDS_PER_WEEK: u128 = super::SECONDS_PER_WEEK;
+    /// Seconds per year used to convert the APY to a per-second factor.
+    pub const SECONDS_PER_YEAR: u128 = super::SECONDS_PER_YEAR;
+
+    /// See [`compute_time_weighted_apy`](super::compute_time_weighted_apy).
+    pub fn compute_time_weighted_apy(
+        stake_start_time: i64,
+        now: i64,
+        apy_gradient: &[u128; APY_BUCKETS],
+    ) -> u128 {
+        super::compute_time_weighted_apy(stake_start_time, now, apy_gradient)
+    }
+
+    /// See [`calculate_gt_reward_amount`](super::calculate_gt_reward_amount).
+    pub fn calculate_gt_reward_amount(
+        staked_value_usd: u128,
+        duration_seconds: i64,
+        gt_apy_per_sec: u128,
+        inv_cost_integral: u128,
+    ) -> Result<u64> {
+        super::calculate_gt_reward_amount(
+            staked_value_usd,
+            duration_seconds,
+            gt_apy_per_sec,
+            inv_cost_integral,
+        )
+    }
+}
